@@ -1,22 +1,26 @@
-/* vp_alloc_slab.c -- allocator model with fixed-size slabs (DESIGN R2),
- * for harnesses where buffer sizes are symbolic to the symbolic executor
- * (varint-encoded fields make every offset of a MANIFEST record symbolic).
- * Owner: C17/C14 (also used by C07).
+/* vp_alloc_slab.c -- allocator model with CONCRETE object sizes, for units
+ * whose allocation sizes depend on untrusted input (the C18 decoders).
  *
- * ldb_malloc        -> malloc + assume non-null (as kit/vp_alloc.c).
- * ldb_realloc       -> the first request for a buffer returns a fresh object
- *                      of VP_SLAB bytes, later requests return the same
- *                      object; a request above VP_SLAB is reported
- *                      ("vp-model:", a broken check, never a truncation).
- *                      Consequence: an overrun beyond the requested size but
- *                      inside the slab, and a stale pointer kept across a
- *                      growth, are not seen by CBMC (the native replay uses
- *                      libc realloc under ASan and sees both).
- * vp_realloc_ptrs   -> same for arrays of pointers (ldb_vector_t items): a
- *                      typed void*[VP_VEC_CAP] object, so that no pointer is
- *                      ever stored in a byte array (R5).  Reached by including
- *                      the real util/vector.c through kit/vp_vector_inc.h.
- * Do not link together with kit/vp_alloc.c.
+ * kit/vp_alloc.c hands `malloc(size)` with a symbolic size to CBMC; every
+ * such object is an unbounded array and the array theory makes the block /
+ * version-edit / log-reader harnesses time out (measured: block first N=12
+ * > 300 s; with this model 30 s).  Here:
+ *
+ * ldb_malloc(size)  -> malloc + assume non-null (sizes are sizeof(struct)).
+ * ldb_realloc(p, n) -> a fresh object of exactly VP_SLAB bytes (-DVP_SLAB=..,
+ *     concrete per obligation); the buffer is RIGHT-ALIGNED in it: the
+ *     returned pointer is base + (VP_SLAB - n), so that a write or read past
+ *     the n requested bytes runs off the end of the object and is caught by
+ *     CBMC's bounds check exactly as with an n-byte object.  (An access
+ *     *before* the buffer start, inside the slab, is not caught.)
+ *     Old contents are copied (old size = VP_SLAB - offset of the old
+ *     pointer), the old slab is freed.
+ *     `n > VP_SLAB` is a "vp-model:" assertion: the check is reported as
+ *     broken (never silently truncated) -- choose VP_SLAB from the input size.
+ * ldb_free(p)       -> free of the object's base address.
+ *
+ * No loops.
+ * Under VP_REPLAY the libc allocator is used (ASan checks exact sizes).
  */
 #include <stdlib.h>
 #include <string.h>
@@ -34,19 +38,15 @@ void *ldb_realloc(void *ptr, size_t size) {
   if (ptr == NULL) abort();
   return ptr;
 }
-void *vp_realloc_ptrs(void *ptr, size_t size) {
-  return ldb_realloc(ptr, size);
-}
 void ldb_free(void *ptr) { if (ptr != NULL) free(ptr); }
 
 #else
 
 #ifndef VP_SLAB
-#define VP_SLAB 256
+#define VP_SLAB 64
 #endif
-#ifndef VP_VEC_CAP
-#define VP_VEC_CAP 8
-#endif
+
+size_t vp_alloc_max_request = 0;
 
 void *
 ldb_malloc(size_t size) {
@@ -57,31 +57,36 @@ ldb_malloc(size_t size) {
 
 void *
 ldb_realloc(void *ptr, size_t size) {
-  __CPROVER_assert(size <= VP_SLAB, "vp-model: ldb_realloc request fits the slab (VP_SLAB)");
-  if (ptr == NULL) {
-    unsigned char *p = (unsigned char *)malloc(VP_SLAB);
-    __CPROVER_assume(p != NULL);
-    return p;
-  }
-  return ptr;
-}
+  uint8_t *base, *np;
+  size_t i, old;
 
-void *
-vp_realloc_ptrs(void *ptr, size_t size) {
-  __CPROVER_assert(size <= VP_VEC_CAP * sizeof(void *),
-                   "vp-model: vector request fits the typed slab (VP_VEC_CAP)");
-  if (ptr == NULL) {
-    void **p = (void **)malloc(sizeof(void *) * VP_VEC_CAP);
-    __CPROVER_assume(p != NULL);
-    return p;
+  if (size > vp_alloc_max_request)
+    vp_alloc_max_request = size;
+
+  __CPROVER_assert(size <= VP_SLAB, "vp-model: ldb_realloc request larger than VP_SLAB");
+
+  base = (uint8_t *)malloc(VP_SLAB);
+  __CPROVER_assume(base != NULL);
+  np = base + (VP_SLAB - size);
+
+  if (ptr != NULL) {
+    __CPROVER_assert(__CPROVER_OBJECT_SIZE(ptr) == VP_SLAB,
+                     "vp-model: ldb_realloc of a pointer not from ldb_realloc");
+    old = VP_SLAB - __CPROVER_POINTER_OFFSET(ptr);
+    if (old > size)
+      old = size;
+    for (i = 0; i < old; i++)
+      np[i] = ((uint8_t *)ptr)[i];
+    free((uint8_t *)ptr - __CPROVER_POINTER_OFFSET(ptr));
   }
-  return ptr;
+
+  return np;
 }
 
 void
 ldb_free(void *ptr) {
   if (ptr != NULL)
-    free(ptr);
+    free((uint8_t *)ptr - __CPROVER_POINTER_OFFSET(ptr));
 }
 
 #endif
